@@ -594,6 +594,8 @@ def r7_threshold_and_filter_setters(ctx, facts):
         nc = eq_kind(c) if c is not None else None
         if nc and any(is_call(x, r"std::vector<.*>::c?end$") for x in walk(c)):
             found.append((bid, "T" if nc[0] == "!=" else "F"))   # label of 'found'
+    if not found and not lam:
+        raise AnalysisBroken("Sink::add_filter: the duplicate-name test has a shape no accepted idiom covers (no find_if + end() comparison): not decided")
     refuse = bool(found) and bool(thr) and not g.exists_path([g.entry_node], thr, avoid_edges=found) and \
         all(not g.exists_path([y for (y, l2) in g.succ.get(tnode(g, b), ()) if l2 == lab], [g.exit_node], avoid_nodes=thr) for (b, lab) in found)
     ctx.ob("C16.R7b", "Sink::add_filter:refuses-duplicate-name-only", same_name and refuse,
